@@ -22,7 +22,7 @@ RULE = ("for each of the three field configurations (pysnark.zkinterface.backend
         "agree on header and constraints; with the private values re-drawn circuit.zkif is byte-identical. Plus deterministic large traces (1 to 1025 "
         "[thorough: 4097] constraints) per configuration. Non-trivial = "
         ">= 1 public, >= 1 private, >= 1 constraint and a value or scalar outside [0,p); distinct by (config, trace) digest.")
-RULE += " Extensions (seeded rounds 10-15): 32769 constraints (thorough: 40001, 65537), same-shaped stale files, a failed prove() in the history."
+RULE += " Extensions (seeded rounds 10-15): 32769 constraints (thorough: 40001, 65537), same-shaped stale files, a failed prove() in the history. Coefficient sweep: every coefficient k, -k, p-k, p+k for k = 1..10001 (thorough 70001) and around the powers of two and ten above, on a wire and on the constant."
 
 CONFIGS = ["zkinterface", "zkifbellman", "zkifbulletproofs"]
 
